@@ -30,6 +30,72 @@ type generateState struct {
 	outputStructCount  int
 	outputEnums        map[string]struct{}
 	requiresJSONImport bool
+
+	// Identifiers that are declared at the top level of the output or that the generated code
+	// relies on, and the Go names chosen for the schema's enum types and their values.
+	declared     map[string]struct{}
+	collectNames bool
+	enumNames    map[string]string
+	enumConsts   map[string]map[string]string
+}
+
+// Identifiers the generated code itself uses: a generated declaration must not take them.
+var reservedIdentifiers = []string{
+	"break", "case", "chan", "const", "continue", "default", "defer", "else", "fallthrough", "for",
+	"func", "go", "goto", "if", "import", "interface", "map", "package", "range", "return", "select",
+	"struct", "switch", "type", "var",
+	"string", "int", "float64", "bool", "byte", "error", "nil", "s", "b", "_", "json",
+}
+
+// declare returns name if no declaration has taken it yet, otherwise name with underscores
+// appended until it is free, and marks the result as taken.
+func (s *generateState) declare(name string) string {
+	for {
+		if _, ok := s.declared[name]; !ok {
+			break
+		}
+		name += "_"
+	}
+	s.declared[name] = struct{}{}
+	return name
+}
+
+func enumConstSuffix(value string) string {
+	parts := strings.Split(value, "_")
+	for i, part := range parts {
+		parts[i] = strings.Title(strings.ToLower(part))
+	}
+	return strings.Join(parts, "")
+}
+
+// assignEnumNames chooses the Go names of all enum types of the schema and of their values, in
+// sorted order, after the <Operation>Data and <Fragment>Fragment types of all queries have been
+// reserved: an enum named like one of those types, like a reserved identifier or like another
+// enum's constant gets underscores appended instead of producing a duplicate declaration.
+func (s *generateState) assignEnumNames() {
+	var enums []*schema.EnumType
+	for _, t := range s.schema.NamedTypes() {
+		if t, ok := t.(*schema.EnumType); ok {
+			enums = append(enums, t)
+		}
+	}
+	sort.Slice(enums, func(i, j int) bool { return enums[i].Name < enums[j].Name })
+	s.enumNames = map[string]string{}
+	s.enumConsts = map[string]map[string]string{}
+	for _, t := range enums {
+		s.enumNames[t.Name] = s.declare(t.Name)
+	}
+	for _, t := range enums {
+		values := make([]string, 0, len(t.Values))
+		for k := range t.Values {
+			values = append(values, k)
+		}
+		sort.Strings(values)
+		s.enumConsts[t.Name] = map[string]string{}
+		for _, k := range values {
+			s.enumConsts[t.Name][k] = s.declare(s.enumNames[t.Name] + enumConstSuffix(k))
+		}
+	}
 }
 
 func fieldName(name string) string {
@@ -119,20 +185,17 @@ func (s *generateState) generateType(t schema.Type, selections []ast.Selection, 
 		}
 		ret = "[]" + gen
 	case *schema.EnumType:
+		goName := s.enumNames[t.Name]
 		if _, ok := s.outputEnums[t.Name]; !ok {
-			s.output += "type " + t.Name + " string\n\nconst (\n"
+			s.output += "type " + goName + " string\n\nconst (\n"
 			for k := range t.Values {
-				parts := strings.Split(k, "_")
-				for i, part := range parts {
-					parts[i] = strings.Title(strings.ToLower(part))
-				}
-				s.output += t.Name + strings.Join(parts, "") + " " + t.Name + " = \"" + k + "\"\n"
+				s.output += s.enumConsts[t.Name][k] + " " + goName + " = \"" + k + "\"\n"
 			}
 			s.output += ")\n\n"
 			s.outputEnums[t.Name] = struct{}{}
 		}
 
-		ret = t.Name
+		ret = goName
 
 		if !nonNull {
 			ret = "*" + ret
@@ -379,6 +442,23 @@ func (s *generateState) processQuery(q string) []error {
 		return ret
 	}
 
+	if s.collectNames {
+		// first pass: only reserve the names of the types declared for operations and fragments
+		for _, op := range doc.Definitions {
+			switch op := op.(type) {
+			case *ast.OperationDefinition:
+				if op.Name != nil {
+					s.declared[op.Name.Name+"Data"] = struct{}{}
+				}
+			case *ast.FragmentDefinition:
+				if op.Name != nil {
+					s.declared[op.Name.Name+"Fragment"] = struct{}{}
+				}
+			}
+		}
+		return nil
+	}
+
 	fragTypes := map[string]string{}
 	for _, op := range doc.Definitions {
 		if def, ok := op.(*ast.FragmentDefinition); ok {
@@ -464,7 +544,24 @@ func Generate(schema *schema.Schema, pkg string, inputGlobs []string, wrapper, j
 		schema:      schema,
 		wrapper:     wrapper,
 		outputEnums: map[string]struct{}{},
+		declared:    map[string]struct{}{},
 	}
+	for _, name := range reservedIdentifiers {
+		state.declared[name] = struct{}{}
+	}
+
+	// First pass over the input: the names of the <Operation>Data and <Fragment>Fragment types.
+	// They keep their names; enum types and constants are named around them.
+	state.collectNames = true
+	for _, glob := range inputGlobs {
+		if matches, err := filepath.Glob(glob); err == nil {
+			for _, match := range matches {
+				state.processFile(match)
+			}
+		}
+	}
+	state.collectNames = false
+	state.assignEnumNames()
 
 	var errs []error
 	for _, glob := range inputGlobs {
